@@ -176,10 +176,11 @@ def run(ctx):
             ctx.count(f'corr_prolog_tree:{lang}')
         if only_prolog:
             return
-        dt_cases.append(fmt_derivtext_cases.tree_case(t))
-        dt_descr.append(d)
         ctx.count('corr_html_tree:seen')
-        if not ctx.quick or ctx.stats['corr_html_tree:seen'] % 2 == 1:      # the MathML texts are long: every other tree in the quick tier
+        if not ctx.quick or ctx.stats['corr_html_tree:seen'] % 2 == 1:
+            dt_cases.append(fmt_derivtext_cases.tree_case(t))
+            dt_descr.append(d)
+        if not ctx.quick or ctx.stats['corr_html_tree:seen'] % 3 == 1:      # the MathML texts are long: every third tree in the quick tier
             html_cases.append(fmt_html_cases.tree_case(t))
             html_descr.append(d)
             for n in fmt_oracle.t_nodes(t):                                  # the regex segmentation on the category texts met (each once)
@@ -282,7 +283,7 @@ def run(ctx):
             add_tree(t, lang, 'malformed:' + kind, readable=(kind in ('noword', 'typekey')))
         # trees aimed at the branches of the prolog printers (wrappers conj / conj2 / lp over functor and atomic categories, labels outside
         # the tables, quotes and backslashes in every quoted field, punctuation categories, `case` in every position, missing words)
-        for t in fmt_prolog_cases.special_trees(rng, lang, 60 if ctx.quick else 800):
+        for t in fmt_prolog_cases.special_trees(rng, lang, 40 if ctx.quick else 800):
             add_text_level(t, lang, 'prolog_special', only_prolog=True)
         for b in ([], [[]], [[ScoredTree(batches[0][0][0][0].tree, -1.5)], []]):
             add_docs(b, lang)
